@@ -120,3 +120,23 @@ Lemma fast_retransmit_covered_refuted :
      dcount (out (fst (step t (ESeg sg 1000000000)))) = 0 /\
      frActive (SN (fst (step t (ESeg sg 1000000000)))) = false.
 Proof. exists exT, (sgack 1000). vm_compute. repeat split; discriminate. Qed.
+
+(* ... and not after a finished FAST recovery either: leaveFastRecovery moves fr.last up to
+   sndNxt-1, so a loss among the segments in flight at that moment cannot be fast-retransmitted
+   (those sent during the recovery and not covered by the ACK that ends it)
+   although sndUna is beyond the point of the recovery (RFC 6582 keeps "recover" = 1119 here and
+   would retransmit): candidate finding, also observed on traces of the real code (tag bit 32) *)
+(* four more duplicates in recovery inflate cwnd to 12: one NEW segment (1120..1130) goes out;
+   the ACK 1120 then ends the recovery (1120 > fr.last = 1119) with fr.last := sndNxt-1 = 1129 *)
+Definition exE := run exB [ack 1010; ack 1010; ack 1010; ack 1010].
+Definition exD := run exE [ack 1120; ack 1120; ack 1120].
+Lemma fast_retransmit_after_recovery_refuted :
+  exists t sg recover,
+     recover = frLast (SN exB) /\ frActive (SN exB) = true /\ frActive (SN t) = false /\
+     lessThan recover (sndUna (SN t)) = true /\ gRto (snd (grun ex0 g0 [wr; ack 1010; ack 1010; ack 1010; ack 1010; ack 1010; ack 1010; ack 1010; ack 1010; ack 1120; ack 1120; ack 1120])) = 0 /\
+     processed t sg = true /\ dupAck (SN t) = 2 /\ outstanding (SN t) = 7 /\
+     sndUna (SN t) <> sndNxt (SN t) /\ s_ack sg = sndUna (SN t) /\ seglen sg = 0 /\
+     wndOf t sg = sndWnd (SN t) /\
+     dcount (out (fst (step t (ESeg sg 1000000000)))) = 0 /\
+     frActive (SN (fst (step t (ESeg sg 1000000000)))) = false.
+Proof. exists exD, (sgack 1120), 1119. vm_compute. repeat split; discriminate. Qed.
